@@ -71,7 +71,9 @@ def run(ctx):
     mn = csp.call_blocks(lambda c: c.endswith('cmp::Ord::min'))
     ctx.ob('R17.7', 'permit|min with remaining workers', any(csp.term[x]['d'][0] in srcs for x in mn), 'each allocation is clamped by the remaining worker budget (min)', csp.loc(mn[0]) if mn else csp.loc())
     from hqrules.templates import bool_uses
-    z = [(bi, s_) for bi, s_, op, a, c in binops(csp) if op == 'Eq' and any(o[0] == 'k' and '0_' in o[1] for o in (a, c)) and any(op_local(o) in srcs for o in (a, c) if op_local(o) is not None)]
+    mind = {csp.term[x]['d'][0] for x in mn if csp.term[x]['d'][0] in srcs}
+    z = [(bi, s_) for bi, s_, op, a, c in binops(csp) if op == 'Eq' and any(o[0] == 'k' and '0_' in o[1] for o in (a, c))
+         and any(mind & csp.derived_from(op_local(o), through_mutation=False) for o in (a, c) if op_local(o) is not None)]
     okz = False
     for bi, s_ in z:
         fe = set((sb, fs) for sb, ts, fs in bool_uses(csp, s_['p'][0]))
